@@ -220,40 +220,7 @@ PRESENTABLE = ("default_in_one_only", "different_defaults", "strict_incompatible
 
 
 def _present(nodes, mode):
-    """The same program with its function nodes declared in a roundabout way (external names, defaults and types unchanged):
-    swap = the function's first two parameters carry each other's names and ONE with_inputs call swaps them back;
-    wrap = the node sits alone in a nested graph under inner parameter names, and the wrapper's inputs are renamed back."""
-    out = []
-    for n in nodes:
-        if n["k"] != "func" or n.get("renames") or n.get("rename_inputs"):
-            out.append(n)
-            continue
-        ps = n.get("params", [])
-        if mode == "swap" and len(ps) >= 2:
-            a, b = ps[0], ps[1]
-            sw = {a: b, b: a}
-            m = dict(n)
-            m["params"] = [sw.get(x, x) for x in ps]
-            m["defaults"] = {sw.get(k, k): v for k, v in n.get("defaults", {}).items()}
-            if n.get("ann"):
-                m["ann"] = {sw.get(k, k): v for k, v in n["ann"].items()}
-            m["renames"] = [{"kind": "inputs", "map": {a: b, b: a}}]
-            m["fid"] = n.get("fid", n["name"]) + "~swapped"
-            out.append(m)
-        elif mode == "wrap" and ps and not n.get("emit") and not n.get("wait_for"):
-            inn = {p_: p_ + "_in" for p_ in ps}
-            core = dict(n)
-            core["name"] = n["name"] + "_core"
-            core["fid"] = n.get("fid", n["name"]) + "~core"
-            core["params"] = [inn[x] for x in ps]
-            core["defaults"] = {inn[k]: v for k, v in n.get("defaults", {}).items() if k in inn}
-            if n.get("ann"):
-                core["ann"] = {inn.get(k, k): v for k, v in n["ann"].items()}
-            out.append({"k": "graph", "name": n["name"], "graph": {"nodes": [core], "name": n["name"]}, "outs": list(n.get("outs", [])), "params": list(ps),
-                        "renames": [{"kind": "inputs", "map": {v: k for k, v in inn.items()}}]})
-        else:
-            out.append(n)
-    return out
+    return gen.present(nodes, mode, warm=False)
 
 
 def _construct(ctx, nodes, *, name=None, edges=None, strict=False, nested=False, via_add_nodes=False, present=None):
